@@ -23,12 +23,13 @@ CONTENTS["cbig"] = _big(1500)            # ~40 KB: spills the 8 KiB stdout buffe
 CONTENTS["cbigbad"] = _big(1500, True)   # fails at its very end, after most of its output was written
 CONTENTS["chuge"] = _big(11000)          # ~300 KB: several pipe capacities
 
+CONTENTS["chugemap"] = b"{" + b",".join(b'"key%d":"value number %d"' % (i, i) for i in range(11000)) + b"}\n"   # ~330 KB, a table: TOML can hold it
 CONTENTS["cmulti"] = b"".join(b'{"i":%d}\n' % i for i in range(20000))   # 20 000 small documents (~230 KB)
 
 # file name -> content class (must agree with FileTable in spec/MC_XtCli.tla)
 FILES = {
     "good.json": "cj", "bad.json": "cbad", "null.json": "cnull", "doc.yaml": "cy", "UP.YML": "ceq", "conf.toml": "ct",
-    "big.json": "cbig", "bigbad.json": "cbigbad", "huge.json": "chuge", "multi.json": "cmulti",
+    "big.json": "cbig", "bigbad.json": "cbigbad", "huge.json": "chuge", "hugemap.json": "chugemap", "multi.json": "cmulti",
     "empty.yaml": "cempty", "empty.json": "cempty", "bigstr.json": "cbigstr",
     "data.msgpack": "cm", "noext": "cy", "text.txt": "ctext", "wrong.json": "cy", "a.b.yaml": "ceq", ".yaml": "ct", "Mixed.JsOn": "cy",
 }
@@ -53,6 +54,7 @@ def prepare(tag):
     root = os.path.join(WORK, "cli-" + tag)
     shutil.rmtree(root, ignore_errors=True)
     os.makedirs(os.path.join(root, "run", "dir.d"))
+    os.makedirs(os.path.join(root, "run", "dir.msgpack"))
     os.makedirs(os.path.join(root, "contents"))
     for name, c in FILES.items():
         with open(os.path.join(root, "run", name), "wb") as f:
@@ -161,7 +163,8 @@ def run_real(binary, argv, root, stdout_kind, stdin_bytes):
     if any(n in argv for n in FIFOS) and stdout_kind != "tty":
         # a FIFO operand needs a writer: run through Popen so that the feeder can watch the process
         out_f = open(os.path.join(root, "fifo-out.bin"), "wb") if stdout_kind == "file" else subprocess.PIPE
-        p = subprocess.Popen([binary] + argv, stdin=subprocess.PIPE, stdout=out_f, stderr=subprocess.PIPE, cwd=cwd)
+        with cli.FORK_LOCK:
+            p = subprocess.Popen([binary] + argv, stdin=subprocess.PIPE, stdout=out_f, stderr=subprocess.PIPE, cwd=cwd)
         ts = feed_fifos(argv, cwd, p)
         try:
             out, err = p.communicate(stdin_bytes, timeout=30)
@@ -179,8 +182,9 @@ def run_real(binary, argv, root, stdout_kind, stdin_bytes):
         return {"exit": rc if rc >= 0 else None, "signal": -rc if rc < 0 else 0, "stdout": out or b"", "stderr": err, "timeout": to}
     if stdout_kind == "tty":
         master, slave = pty.openpty()
-        p = subprocess.Popen([binary] + argv, stdin=subprocess.PIPE, stdout=slave, stderr=subprocess.PIPE, cwd=cwd)
-        os.close(slave)
+        with cli.FORK_LOCK:
+            p = subprocess.Popen([binary] + argv, stdin=subprocess.PIPE, stdout=slave, stderr=subprocess.PIPE, cwd=cwd)
+            os.close(slave)
         if any(n in argv for n in FIFOS):
             feed_fifos(argv, cwd, p)
         try:
@@ -233,7 +237,7 @@ def expected_stdout(pred, table):
         if d["path"] == "-":
             content, mode = pred.get("stdin_content", STDIN), "reader"
         else:
-            content = FILES.get(d["path"]) or FIFOS.get(d["path"]) or ("cdir" if d["path"] == "dir.d" else None)
+            content = FILES.get(d["path"]) or FIFOS.get(d["path"]) or ("cdir" if d["path"] in ("dir.d", "dir.msgpack") else None)
             mode = "reader" if d["path"] in READER_FILES else "slice"
         r = table[(content, d["sel"], pred["to"], mode)]
         out += bytes.fromhex(r["out"])
@@ -310,11 +314,13 @@ def run_closed(binary, argv, root, stdin_bytes, k):
     """stdout is a pipe whose reader takes k bytes and goes away (k = 0: gone before xt starts)."""
     import threading
     cwd = os.path.join(root, "run")
-    r, w = os.pipe()
-    if k == 0:
-        os.close(r)
-    p = subprocess.Popen([binary] + argv, stdin=subprocess.PIPE, stdout=w, stderr=subprocess.PIPE, cwd=cwd)
-    os.close(w)
+    with cli.FORK_LOCK:
+        # (no sibling may fork while the read end exists: its child would hold a copy until it execs)
+        r, w = os.pipe()
+        if k == 0:
+            os.close(r)
+        p = subprocess.Popen([binary] + argv, stdin=subprocess.PIPE, stdout=w, stderr=subprocess.PIPE, cwd=cwd)
+        os.close(w)
 
     def feed():
         try:
